@@ -57,6 +57,28 @@ def corr_cases(ctx, info, translated):
     return cases
 
 
+def corr_cases_legendre(ctx, info, translated):
+    """integrated-Legendre family: the model polynomials at (dyadic point, float values of the scales sqrt((2n-1)/2)) vs
+    the numerical lbasis.  Tolerance correspondence: the coefficients are snapped rationals (see vlib/c09_pp.py)."""
+    cases = []
+    rng = ctx.rng
+    for k, name in enumerate(info['names']['legendre']):
+        tr = translated[name]
+        for pt in dyadic_points(tr.dim, ctx.n(2, 5), rng):
+            X = np.array([[float(c)] for c in pt])
+            full = list(pt) + [None] * (tr.nv - tr.dim)
+            for arg, idx in tr.scales.items():
+                full[idx] = Fr(float(np.sqrt(arg)))
+            for i in range(len(tr.basis)):
+                out = c09_oracle.fresh(lambda: type(tr.elem)(tr.p)).lbasis(X, i)
+                flat = []
+                for f in out:
+                    flat += [Fr(float(v)) for v in np.asarray(f, dtype=float).reshape(-1)]
+                inp = f'({cnat(k)}, {cnat(i)}, {clist([cq(c) for c in full])})'
+                cases.append((inp, clist([cq(v) for v in flat]), (name, i, [str(c) for c in pt])))
+    return cases
+
+
 # ------------------------------------------------------------------------------ oracle
 
 def oracle_reference(ctx, label, factory):
@@ -149,6 +171,22 @@ def oracle(ctx, only=None):
             ctx.count(('gbasis', label, kind, mesh.p.tolist(), X.tolist()), nontrivial=(kind != 'ref'))
             ctx.hist('cell_kind', kind)
             ctx.hist('refdom', rd)
+        import skfem.element as E_
+        if isinstance(e, E_.ElementGlobal):
+            for kind in ['affine'] + (['multilinear'] if rd in ('RefQuad', 'RefHex') else []) + ([] if ctx.quick() else ['ref', 'affine']):
+                mesh = c09_oracle.random_mesh(rd, rng, kind)
+                try:
+                    with warnings.catch_warnings():
+                        warnings.simplefilter('ignore')
+                        n, w = c09_oracle.check_global_duality(label, f, mesh, ctx.fail)
+                except Exception as ex:  # noqa
+                    import traceback
+                    ctx.fail(f'elem={label}:functional-duality-exception', f'{label}: {type(ex).__name__}: {ex}',
+                             {'element': label, 'p': mesh.p.tolist(), 't': mesh.t.tolist(), 'traceback': traceback.format_exc()[-1200:]})
+                    continue
+                ctx.cov['evaluations'] += n
+                ctx.count(('gdual', label, kind, mesh.p.tolist()), nontrivial=(kind != 'ref'))
+                ctx.extra['max_global_functional_duality_deviation'] = max(ctx.extra.get('max_global_functional_duality_deviation', 0.0), w)
         try:
             oracle_reference(ctx, label, f)
         except Exception as ex:  # noqa
@@ -197,6 +235,7 @@ def run(ctx, only=None):
         ctx.extra['translated'] = info['translated']
         ctx.extra['excluded_by_name'] = info['excluded']
         ctx.extra['global_tables'] = info['global']
+        ctx.extra['legendre_family'] = {'elements': info['legendre'], 'bound_p': c09_gen.PMAX_LEGENDRE, 'exactness': 'exact symbolic execution of the real lbasis/_reval_legendre; scales sqrt((2n-1)/2) kept as formal indeterminates (identities hold for every value of them); NumPy float coefficients of Legendre(c).integ()/deriv() snapped to the rational within 4e-16 (ideal coefficients) - tie = tolerance correspondence 1e-9, not exact'}
         ctx.extra['exhaustive'] = 'per class: polynomial identities decided for all points (normal form), finite list of classes'
         ok, failing = compile_generated(ctx, chunks, info)
         if ok:
@@ -225,6 +264,11 @@ def run(ctx, only=None):
             ctx.corr('lbasis', 'Require Import Base.C09_Poly Base.C09_PolyQ Model.C09_Elem Gen.C09_Elements.\n'
                      'From Coq Require Import List QArith.\nOpen Scope nat_scope.',
                      '(elem_eval all_elements)', '(qs_close (1 # 1000000000))', cases, per_file=300,
+                     nontrivial=lambda r: True)
+            lcases = corr_cases_legendre(ctx, info, translated)
+            ctx.corr('lbasis_legendre', 'Require Import Base.C09_Poly Base.C09_PolyQ Model.C09_Elem Gen.C09_Elements.\n'
+                     'From Coq Require Import List QArith.\nOpen Scope nat_scope.',
+                     '(elem_eval legendre_elements)', '(qs_close (1 # 1000000000))', lcases, per_file=300,
                      nontrivial=lambda r: True)
             ctx.sample({'kind': 'correspondence', 'element': cases[7][2][0], 'i': cases[7][2][1], 'point': cases[7][2][2],
                         'lbasis_fields_exact_dyadic': cases[7][1][:200]})
